@@ -158,17 +158,21 @@ class Problem:
         var = self.objective.expr.var
         n = var.n
         rec["n"] = n
-        if not var.boolean:
-            raise Unsupported("non-boolean MIP variable")
+        # a variable that is not declared boolean puts the problem outside the 0/1 contract (the solver may then return fractional points,
+        # which the caller's threshold silently drops): recorded - the pipeline checks report it - and modelled as boolean beyond that
+        rec["boolean"] = bool(var.boolean)
         # concrete constraint rows
         rows = []
+        sym_rows = []       # rows with symbolic coefficients or bound (e.g. a bound on the objective): feasibility of a point is a formula
         for c in self.constraints:
             if c.expr.var is not var:
                 raise Unsupported("constraint over another variable")
             M = c.expr.M
             if any(isinstance(e, SymNum) for e in M.flat) or isinstance(c.rhs, SymNum):
-                raise Unsupported("symbolic constraint matrix")
+                sym_rows.append((real_np.array(M, dtype=object), c.op, c.rhs))
+                continue
             rows.append((real_np.array(M, dtype=float), c.op, float(c.rhs)))
+        rec["symbolic_rows"] = len(sym_rows)
         rec["rows"] = [(M.tolist(), op, rhs) for M, op, rhs in rows]
         rec["objective"] = [self.objective.expr.M[0, j] for j in range(n)]
         rec["sense"] = self.objective.sense
@@ -192,13 +196,33 @@ class Problem:
         if not pts:
             var.value = None
             return None
+
+        def _cond(p):
+            """formula: the 0/1 point p satisfies every symbolic row"""
+            cs = []
+            for M, op, rhs in sym_rows:
+                for i in range(M.shape[0]):
+                    tot = z3.RealVal(0)
+                    for j in range(n):
+                        if p[j]:
+                            tot = tot + lift(M[i, j])
+                    r = lift(rhs)
+                    cs.append(tot == r if op == "==" else (tot >= r if op == ">=" else tot <= r))
+            return z3.And(*cs) if cs else z3.BoolVal(True)
+        if sym_rows:
+            if len(pts) > MAX_POINTS:
+                raise Cut("mip-points>%d" % MAX_POINTS)
+            # the solver reports "infeasible" exactly when no point satisfies the symbolic rows as well
+            if ctx.decide(z3.And(*[z3.Not(_cond(p)) for p in pts])):
+                var.value = None
+                return None
         coefs = [self.objective.expr.M[0, j] for j in range(n)]
         sense = self.objective.sense
         rec["objective"] = coefs
         rec["sense"] = sense
         # dominance reduction when all coefficients are provably non-negative (minimisation)
         use = pts
-        if sense == "min" and len(pts) > 1:
+        if sense == "min" and len(pts) > 1 and not sym_rows:      # (a dominated point may be the only one a symbolic row lets through)
             nonneg = z3.And(*[lift(c) >= 0 for c in coefs]) if coefs else z3.BoolVal(True)
             r, _ = ctx.check(z3.Not(nonneg))
             if r == "unsat":
@@ -226,16 +250,24 @@ class Problem:
                         tot = tot + lift(float(M[i, j])) * xs[j].e
                 r = lift(rhs)
                 ctx.solver.add(tot == r if op == "==" else (tot >= r if op == ">=" else tot <= r))
-        # optimality
+        for M, op, rhs in sym_rows:
+            for i in range(M.shape[0]):
+                tot = z3.RealVal(0)
+                for j in range(n):
+                    tot = tot + z3.If(xs[j].e == 1, lift(M[i, j]), z3.RealVal(0))
+                r = lift(rhs)
+                ctx.solver.add(tot == r if op == "==" else (tot >= r if op == ">=" else tot <= r))
+        # optimality (among the points that satisfy the symbolic rows too)
         obj = z3.RealVal(0)
         for j in range(n):
-            obj = obj + lift(coefs[j]) * xs[j].e
+            obj = obj + (z3.If(xs[j].e == 1, lift(coefs[j]), z3.RealVal(0)) if sym_rows else lift(coefs[j]) * xs[j].e)
         for p in use:
             val = z3.RealVal(0)
             for j in range(n):
                 if p[j]:
                     val = val + lift(coefs[j])
-            ctx.solver.add(obj <= val if sense == "min" else obj >= val)
+            better = obj <= val if sense == "min" else obj >= val
+            ctx.solver.add(z3.Implies(_cond(p), better) if sym_rows else better)
         ctx.model = None
         var.value = real_np.array(xs, dtype=object)
         rec["obj_term"] = SymNum(obj)
